@@ -37,6 +37,10 @@ pub enum Form {
     NestedBlockComment,
     /// `----`: a complete comment without text (X.680 12.6.3)
     EmptyInlineComment,
+    /// comments with no blank between them and the neighbouring tokens: `INTEGER--c--,`
+    GluedInlineComment,
+    GluedLineComment,
+    GluedBlockComment,
 }
 
 /// bodies that are only legal in one comment style: `--` means nothing inside `/* */`
@@ -47,13 +51,13 @@ const LINE_ONLY_BODIES: [&str; 2] = ["slash-star /* inside", "star-slash */ insi
 fn body_for(form: Form, k: usize) -> &'static str {
     match form {
         Form::BlockComment | Form::NestedBlockComment if k % 3 == 0 => BLOCK_ONLY_BODIES[(k / 3) % BLOCK_ONLY_BODIES.len()],
-        Form::LineComment | Form::InlineComment if k % 4 == 0 => LINE_ONLY_BODIES[(k / 4) % LINE_ONLY_BODIES.len()],
+        Form::LineComment | Form::InlineComment | Form::GluedLineComment if k % 4 == 0 => LINE_ONLY_BODIES[(k / 4) % LINE_ONLY_BODIES.len()],
         _ => COMMENT_BODIES[k % COMMENT_BODIES.len()],
     }
 }
 
 impl Form {
-    pub const ALL: [Form; 11] = [
+    pub const ALL: [Form; 14] = [
         Form::Space,
         Form::Tab,
         Form::TwoSpaces,
@@ -65,6 +69,9 @@ impl Form {
         Form::BlockComment,
         Form::NestedBlockComment,
         Form::EmptyInlineComment,
+        Form::GluedInlineComment,
+        Form::GluedLineComment,
+        Form::GluedBlockComment,
     ];
     fn class(self) -> &'static str {
         match self {
@@ -87,6 +94,9 @@ impl Form {
             Form::BlockComment => format!(" /* {body} */ "),
             Form::NestedBlockComment => format!(" /* outer /* {body} */ outer */ "),
             Form::EmptyInlineComment => " ---- ".to_string(),
+            Form::GluedInlineComment => format!("--{}--", body.trim_end()),
+            Form::GluedLineComment => format!("--{body}\n"),
+            Form::GluedBlockComment => format!("/*{body}*/"),
         }
     }
 }
@@ -247,7 +257,7 @@ pub fn run(tier: Tier, seed: u64, replay: Option<String>) -> i32 {
                 let inside = toks[i - 1].module == toks[i].module && toks[i - 1].item == toks[i].item && toks[i].item != HEADER;
                 let base_sep = default_sep(&toks, i, false);
                 for (fi, form) in Form::ALL.iter().enumerate() {
-                    let primary = matches!(form, Form::Tab | Form::Lf | Form::LineComment | Form::BlockComment);
+                    let primary = matches!(form, Form::Tab | Form::Lf | Form::LineComment | Form::BlockComment | Form::GluedInlineComment);
                     if !thorough && !primary && (i + fi) % 3 != 0 {
                         continue;
                     }
